@@ -88,7 +88,7 @@ theorem foldl_lo_map (g : Rat → Level → Rat) (hg : ∀ a l, g a (F.mapLevel 
 theorem placeCentral_map (ns rs : Rat) (st : St) (t : Lay) :
     placeCentral (F.cfg' ns rs) (F.mapSt st) (F.mapLay t) = F.mapSt (placeCentral (F.cfg ns rs) st t) := by
   unfold placeCentral
-  simp only [cfg, cfg', F.base, F.translate_lay]
+  simp only [F.base, F.translate_lay]
   simp only [mapSt, mapLay, F.overlay_map F.fCentral_map]
   rw [F.foldl_lo_map _ (fun _ _ => rfl), F.foldl_lo_map _ (fun _ _ => rfl)]
 
@@ -97,7 +97,6 @@ theorem sideMoved_map (ns rs : Rat) (st : St) (t : Lay) :
   unfold sideMoved
   rw [show (F.mapSt st).positiveNext = st.positiveNext from rfl,
     show (F.mapSt st).rest = st.rest.map F.mapLevel from rfl]
-  simp only [cfg, cfg']
   rcases Bool.eq_false_or_eq_true st.positiveNext with hp | hp
   · simp only [hp, if_true]
     rw [show (F.mapLay t).levels = t.levels.map F.mapLevel from rfl,
@@ -154,7 +153,7 @@ theorem maxDepth_map (ts : List Lay) : maxDepth (ts.map F.mapLay) = maxDepth ts 
 theorem initSt_map (ns rs : Rat) (id : Nat) (w h : Rat) (k : Nat) (c : Bool) :
     initSt (F.cfg' ns rs) id (F.σ (w, h)).1 (F.σ (w, h)).2 k c = F.mapSt (initSt (F.cfg ns rs) id w h k c) := by
   unfold initSt
-  simp only [cfg, cfg', mapSt, mapLevel, mapNode, List.map_cons, List.map_nil, F.zero, List.map_replicate]
+  simp only [mapSt, mapLevel, mapNode, List.map_cons, List.map_nil, F.zero, List.map_replicate]
   rw [F.half w h]
 
 theorem placeAll_map (ns rs : Rat) (id : Nat) (w h : Rat) (ordered : List Lay) (c : Bool) :
